@@ -20,6 +20,10 @@ pub fn warm_len(spec: &Spec) -> usize {
 pub struct Meas {
     /// (delivery count, live heap bytes attributed to the replica(s)) at quiescent points
     pub points: Vec<(usize, isize)>,
+    /// for each checkpoint: the largest quiescent live-byte count seen in the second half of the interval that
+    /// ends at it (an implementation that trims in batches has a saw-tooth footprint; comparing interval maxima
+    /// instead of point samples keeps the strict oracle sound for any period up to half the reference interval)
+    pub interval_max: Vec<isize>,
     pub peak_transient: isize,
     pub deliveries: usize,
     pub hist: u64,
@@ -44,6 +48,8 @@ pub fn measure_ex(spec: &Spec, vals: &[f64], fork_at: Option<usize>, drop_orig: 
         None => l0,
     };
     let mut points: Vec<(usize, isize)> = Vec::with_capacity(40);
+    let mut interval_max: Vec<isize> = Vec::with_capacity(40);
+    let mut cur_max: isize = isize::MIN;
     let mut h = Fnv::new();
     let mut ctx = Ctx::default();
     let base = alloc::live();
@@ -102,8 +108,16 @@ pub fn measure_ex(spec: &Spec, vals: &[f64], fork_at: Option<usize>, drop_orig: 
                 a = Some(c);
             }
         }
+        if 2 * n >= next_cp {
+            let l = alloc::live() - base;
+            if l > cur_max {
+                cur_max = l;
+            }
+        }
         if n == next_cp {
             points.push((n, alloc::live() - base));
+            interval_max.push(cur_max);
+            cur_max = isize::MIN;
             next_cp *= 2;
             if alloc::live() - base > stop_above {
                 break;
@@ -117,7 +131,7 @@ pub fn measure_ex(spec: &Spec, vals: &[f64], fork_at: Option<usize>, drop_orig: 
         let _ = try_drop(v);
     }
     drop(ctx);
-    Ok(Meas { points, peak_transient, deliveries: n, hist: h.0 })
+    Ok(Meas { points, interval_max, peak_transient, deliveries: n, hist: h.0 })
 }
 
 /// Bound on the heap a view tree may own, as a function of its window lengths only: per node 1 KiB of
@@ -245,6 +259,8 @@ impl Prop for C18 {
         };
         let positive = tree.needs_positive_feed();
         let shape = if i < nw * 14 { (i / nw) as u8 } else { r.below(SHAPES.len()) as u8 };
+        // a third of the runs outside the systematic block use a periodic feed (where the strict oracle applies)
+        let shape = if i >= nw * 14 && r.chance(0.3) { *r.pick(&[14u8, 14, 14, 4, 6]) } else { shape };
         let scale = *r.pick(SCALES) / 4.25;
         let l0 = warm_len(&tree);
         let fork = tree.cloneable() && r.chance(0.3);
@@ -336,18 +352,28 @@ impl Prop for C18 {
                 }
                 // strict no-growth oracle where it is sound: no clone juggling, and a tree whose buffers are all
                 // at their final capacity after the warm-up whatever the data
-                let strict = reclone == 0 && strict_safe(spec);
+                // ... and only under a periodic feed: with data-dependent occupancy (a monotonic deque, a clone whose
+                // buffers were allocated for the occupancy at the moment of cloning) a buffer may legitimately reach
+                // its final capacity late on an aperiodic stream, but on a periodic one everything that can happen
+                // has happened one period after the warm-up
+                let periodic = match &sc.feeds[0] {
+                    Feed::Gen { shape, .. } => crate::feed::is_periodic_shape(*shape),
+                    _ => false,
+                };
+                let strict = reclone == 0 && periodic && strict_safe(spec);
                 if strict {
                     out.stats.hit("oracle.strict_no_growth_runs");
-                    let (n0, b0) = m.points[0];
-                    if let Some(&(n1, b1)) = m.points[1..].iter().find(|&&(_, b)| b > b0) {
+                    let n0 = m.points[0].0;
+                    let b0 = m.interval_max[0];
+                    let later = m.points[1..].iter().zip(m.interval_max[1..].iter()).find(|(_, &mx)| mx > b0).map(|(&(n1, _), &mx)| (n1, mx));
+                    if let Some((n1, b1)) = later {
                         if out.violation.is_none() && b1 <= bound {
                             let key = spec.k.name().to_string();
                             out.violation = Some(Violation::new(
                                 "heap_growth_after_warmup",
                                 key,
                                 n1,
-                                format!("{}: live heap attributed to the view grew from {} B after {} deliveries to {} B after {} deliveries, although every buffer of this tree is at its final capacity after the warm-up (all checkpoints: {:?})", spec.show(), b0, n0, b1, n1, m.points),
+                                format!("{}: the largest live heap attributed to the view in the deliveries ({}..{}] was {} B, in the half-interval ending at delivery {} it was {} B, although every buffer of this tree is at its final capacity after the warm-up (checkpoints: {:?}, interval maxima: {:?})", spec.show(), n0 / 2, n0, b0, n1, b1, m.points, m.interval_max),
                             ));
                         }
                     }
@@ -370,7 +396,7 @@ impl Prop for C18 {
     }
 
     fn rule(&self) -> String {
-        "Block 1: every wrapper alone under each of the 14 workload shapes (which branch pushes can depend on the data). Block 2: every ordered pair of wrappers as a two-level chain. Block 3: random trees (depth 1-3, combinators, stalls). 15% of runs replace the replica by its own clone every 1/7/100/1000 deliveries (dropping the original); 30% of runs clone the replica after the warm-up L0 = 8*(sum of window lengths)+256 deliveries and continue with the clone (dropping the original in half of them). Streams come from the seeded generator: quick 40k-400k deliveries, thorough 60k+, 5% 400k+, 0.2% 4,000,001. A counting #[global_allocator] keeps per-thread live bytes; the harness allocates nothing between construction and the last checkpoint. Oracle 2 (strict, only where sound: trees without EFT in which no view with data-dependent readiness sits below another node, and no re-cloning): the live bytes at 2R, 4R, ... must not exceed the live bytes at R at all. 0.4% (thorough 1%) of the runs are ultra-long, up to 9 000 000 deliveries, sized by the tree's cost per update. Oracle 1: at every checkpoint R, 2R, 4R, 8R, ... (R = L0, or fork point + L0) the live bytes stay below a bound that depends on the window lengths only (per node 1 KiB + eight 8-byte buffers at twice the next power of two above the window; about 5-10x the real footprint). A push-per-update leak of one f64 exceeds it within a few thousand deliveries. (A first version demanded 'no growth after L0'; that raised a false alarm on EFT, whose moving average is fed only when the window is not flat and therefore reaches its final capacity late. Removed.) distinct = distinct (topology, feed length, fork choice); non-trivial = at least three checkpoints (two doublings) were compared."
+        "Block 1: every wrapper alone under each of the 14 workload shapes (which branch pushes can depend on the data). Block 2: every ordered pair of wrappers as a two-level chain. Block 3: random trees (depth 1-3, combinators, stalls). 15% of runs replace the replica by its own clone every 1/7/100/1000 deliveries (dropping the original); 30% of runs clone the replica after the warm-up L0 = 8*(sum of window lengths)+256 deliveries and continue with the clone (dropping the original in half of them). Streams come from the seeded generator: quick 40k-400k deliveries, thorough 60k+, 5% 400k+, 0.2% 4,000,001. A counting #[global_allocator] keeps per-thread live bytes; the harness allocates nothing between construction and the last checkpoint. Oracle 2 (strict, only where sound: a periodic feed - constant, alternating or a repeated pattern of period <= 48 -, trees without EFT in which no view with data-dependent readiness sits below another node, and no re-cloning): the largest live-byte count seen in the second half of each later checkpoint interval must not exceed the largest seen in (R/2, R] (interval maxima rather than point samples, so that an implementation that trims in batches, with a saw-tooth footprint, is not flagged). 0.4% (thorough 1%) of the runs are ultra-long, up to 9 000 000 deliveries, sized by the tree's cost per update. Oracle 1: at every checkpoint R, 2R, 4R, 8R, ... (R = L0, or fork point + L0) the live bytes stay below a bound that depends on the window lengths only (per node 1 KiB + eight 8-byte buffers at twice the next power of two above the window; about 5-10x the real footprint). A push-per-update leak of one f64 exceeds it within a few thousand deliveries. (A first version demanded 'no growth after L0'; that raised a false alarm on EFT, whose moving average is fed only when the window is not flat and therefore reaches its final capacity late. Removed.) distinct = distinct (topology, feed length, fork choice); non-trivial = at least three checkpoints (two doublings) were compared."
             .into()
     }
     fn assumptions(&self) -> Vec<String> {
